@@ -2,8 +2,8 @@
 from hist import *  # noqa
 from remerkleable.tree import NavigationError, RootNode
 
-THEOREMS = ["C17_root", "C17_get", "C17_set", "C17_set_expand", "C17_errors", "C17_summarize", "C17_writes_stay_related", "C17_view_get", "C17_view_set", "C17_list_append", "C17_list_pop", "C17_bits_get", "C17_bits_set", "C17_bitlist_append", "C17_bitlist_pop", "C17_union_value", "C17_lengths", "C17_encoding", "C17_store_start", "C17_store_command", "C17_store_observed", "C17_node_iter", "C17_packed_iter", "C17_bit_iter", "C17_export", "C17_export_is_value", "C17_two_way_reading", "C17_view_ops_two_way", "C17_view_get_complete", "C17_store_errors"]
-PARTIAL = ["the model theorems cover the statement at tree, view and store level: every view operation, serialisation (C17_encoding) and ANY store command with its hook propagation (C17_store_command) that succeeds on the partial tree succeeds on the complete tree with the same data and related (equally rooted) backings, so histories through any held views compose; failures at tree level are navigation errors (C17_errors). the read-only iterators and object export over a partial tree hand out the complete tree's nodes / elements / object whenever they return (C17_node_iter, C17_packed_iter, C17_bit_iter, C17_export), and a successful export of a partial version of a tree representing a value imports back to that value (C17_export_is_value). The other direction is proved too (PartialErrors.v, premise Hinj): where the complete tree answers, every view operation and the serialisation on the partial tree give the related answer or fail with a navigation error (an index error where the code re-labels it: Bitlist bit access) — C17_view_ops_two_way — and a store command with its hook propagation that succeeds on the complete store fails on the partial store only with such an error (C17_store_errors). NOT proved: the error class of the iterators / object export, and iterators stepped on after a failure — covered by the correspondence (every read path of every held view: complete answer or navigation / index error; stepped iterators)"]
+THEOREMS = ["C17_root", "C17_get", "C17_set", "C17_set_expand", "C17_errors", "C17_summarize", "C17_writes_stay_related", "C17_view_get", "C17_view_set", "C17_list_append", "C17_list_pop", "C17_bits_get", "C17_bits_set", "C17_bitlist_append", "C17_bitlist_pop", "C17_union_value", "C17_lengths", "C17_encoding", "C17_store_start", "C17_store_command", "C17_store_observed", "C17_node_iter", "C17_packed_iter", "C17_bit_iter", "C17_export", "C17_export_is_value", "C17_two_way_reading", "C17_view_ops_two_way", "C17_view_get_complete", "C17_store_errors", "C17_iterators_complete", "C17_export_complete", "C17_export_total"]
+PARTIAL = ["the model theorems cover the statement at tree, view and store level: every view operation, serialisation (C17_encoding) and ANY store command with its hook propagation (C17_store_command) that succeeds on the partial tree succeeds on the complete tree with the same data and related (equally rooted) backings, so histories through any held views compose; failures at tree level are navigation errors (C17_errors). the read-only iterators and object export over a partial tree hand out the complete tree's nodes / elements / object whenever they return (C17_node_iter, C17_packed_iter, C17_bit_iter, C17_export), and a successful export of a partial version of a tree representing a value imports back to that value (C17_export_is_value). The other direction is proved too (PartialErrors.v, premise Hinj): where the complete tree answers, every view operation and the serialisation on the partial tree give the related answer or fail with a navigation error (an index error where the code re-labels it: Bitlist bit access) — C17_view_ops_two_way — and a store command with its hook propagation that succeeds on the complete store fails on the partial store only with such an error (C17_store_errors). The same for the three iterators and the object export (C17_iterators_complete, C17_export_complete; C17_export_total: the export of any partial version of a tree representing a value is the value's export or a navigation / index error). NOT proved: iterator OBJECTS stepped on after a failure (the model's iterators are one-shot loops) — covered by the correspondence (every read path of every held view: complete answer or navigation / index error; stepped iterators)"]
 ASSUMPTIONS = ["Hinj (collision-freeness of the pair hash) is a premise of C17_set_expand"]
 COQ_IMPORTS = ["RM.Types", "RM.ModelStore", "RMR.RunC17"]
 COQ_FN = "RunC17.run"
